@@ -148,6 +148,21 @@ def run(tier):
     record("ProgressTrace reports a missing closing message", bad_pg(pg[:8] + pg[9:]))
     record("ProgressTrace reports a message written while the display is off", bad_pg([dict(pg[4], display=False)] + pg[5:]))
 
+    # a tempering run_for of 3 s with cycles of 21 ms (batches of 95 cycles): messages after 96 and 191 cycles, the second 1.011 s late
+    pr = [{"ev": "Begin", "call": "pt_run_for", "m": 3000, "si": 7, "cms": 21, "display": True, "t": 0},
+          {"ev": "PtCount", "h": 0, "mi": 0, "s": 0, "cyc": 96, "t": 2016},
+          {"ev": "PtCount", "h": -1, "mi": 59, "s": 58, "cyc": 191, "t": 4011},
+          {"ev": "PtDone", "cyc": 191, "steps": 1337, "t": 4011}, {"ev": "End", "added": 1337}]
+
+    def edit_pr(i, **kw):
+        return [dict(e, **kw) if k == i else e for k, e in enumerate(pr)]
+    record("ProgressTrace accepts a timed tempering run as displayed", not bad_pg(pr))
+    record("ProgressTrace reports a tempering batch of the wrong number of cycles", bad_pg(edit_pr(1, cyc=97)))
+    record("ProgressTrace reports a tempering time remaining that is not floor(deadline - now)", bad_pg(edit_pr(2, s=59)))
+    record("ProgressTrace reports a tempering batch started after the deadline", bad_pg(edit_pr(2, t=5100, h=-1, mi=59, s=57)))
+    record("ProgressTrace reports a closing tempering message before the deadline", bad_pg([pr[0], pr[1], dict(pr[3], cyc=96, steps=672, t=2016), dict(pr[4], added=672)]))
+    record("ProgressTrace reports chains that grew by other than cycles x swap_interval", bad_pg(edit_pr(3, steps=1330)))
+
     allok = all(r["ok"] for r in results)
     os.makedirs(EVID, exist_ok=True)
     with open(os.path.join(EVID, "selftest.json"), "w") as fh:
